@@ -367,7 +367,10 @@ def run(ctx):
     if ctx.replay:
         cases = [json.load(open(ctx.replay))["replay"]["case"]]
     elif ctx.tier == "quick":
-        cases = corpus() + [gen_case(rnd, ctx, 5, 6, 8) for _ in range(1000)]
+        grid = exhaustive(ctx, 2, 2, [["A"], ["N"]])       # every 2-type hierarchy x every offer sequence of length <= 2
+        ctx.count("grid:<=2 types x <=2 offers x {always,never} (exhaustive)", len(grid))
+        ctx.cov["exhaustive"] = True
+        cases = corpus() + grid + [gen_case(rnd, ctx, 5, 6, 8) for _ in range(800)]
     else:
         grid = exhaustive(ctx, 3, 2, [["A"], ["N"]])
         seen = set(json.dumps(c, sort_keys=True) for c in grid)
